@@ -964,6 +964,27 @@ pub fn layer_c(report: &Report, cli: &Cli, global: &GlobalContext<C>) {
         if creds.len() == 1 || !quick {
             let bytes = to_bytes(&pres);
             let stride = if quick { 29 } else { 1 };
+            // counted parts (credentials, statements, atomic proofs, inner-product rounds) added / removed
+            count_field_edits(&bytes).into_par_iter().enumerate().filter(|(i, _)| !quick || i % 5 == 0).for_each(|(_, (what, eb))| {
+                let mut w = base_w.clone();
+                w["presentation_structural_edit"] = json!(what);
+                case(report, w, || {
+                    let Ok(p) = from_bytes::<Pres, _>(&mut &eb[..]) else {
+                        report.outcome("structural edit unparsable", 1);
+                        return Ok(());
+                    };
+                    if p == pres || (p.presentation_context == pres.presentation_context && p.verifiable_credentials == pres.verifiable_credentials) {
+                        return Ok(());
+                    }
+                    report.trace(1);
+                    match p.verify(global, material.iter()) {
+                        Err(_) => report.outcome("structural edit rejected", 1),
+                        Ok(r) if r != request => report.outcome("structural edit accepted for a different request", 1),
+                        Ok(_) => return fail("altered-presentation-verifies-for-the-original-request", json!({"edit": what})),
+                    }
+                    Ok(())
+                });
+            });
             (0..bytes.len() * 8).into_par_iter().filter(|b| b % stride == 0).for_each(|bit| {
                 let mut w = base_w.clone();
                 w["presentation_bit_flip"] = json!(bit);
